@@ -218,11 +218,11 @@ func runInject(cs Case32) (rec Rec) {
 	settle(cw, 200*time.Millisecond)
 	link.CloseAll() // the environment closes the transport: from now on nothing may stay blocked
 	cl := start(&calls.Close, func() { conn.Close() })
-	deadline := time.After(callWatchdog)
+	deadline := time.Now().Add(callWatchdog)
 	for _, d := range []chan struct{}{rd, wr, cw, cl} {
 		select {
 		case <-d:
-		case <-deadline:
+		case <-time.After(time.Until(deadline)):
 		}
 	}
 	mu.Lock()
